@@ -2,6 +2,8 @@
 import glob
 import json
 import os
+import re
+import subprocess
 
 import checklib
 
@@ -11,6 +13,26 @@ def decode(p):
     kind = {"R": "rules of one event (flag, prio:fails:addsChild …)", "S": "the same as ECAL sinks (interpreter default: flag on)", "B": "RootMonitor calls (N=new child, A=activate, S=skip, F=finish)",
             "K": "cascade script (workers, roots of parent:prio:triggers:fails)"}.get(f[0], "?")
     return {"kind": kind, "payload": p}
+
+
+GEN = os.path.join(checklib.LEAN, "Ecal", "Gen", "C10.lean")
+
+
+def extract(ctx):
+    """regenerate lean/Ecal/Gen/C10.lean from engine/*.go of the tree under test (go/ast)"""
+    binp = checklib.go_build(ctx)
+    if os.path.exists(GEN):
+        os.remove(GEN)
+    p = subprocess.run([binp, "C10", "-tool", "facts", GEN], env=dict(checklib.GOENV, VERIF_REPO=checklib.REPO),
+                       stdout=subprocess.PIPE, stderr=subprocess.STDOUT, text=True, timeout=120)
+    if p.returncode != 0 or not os.path.exists(GEN):
+        raise checklib.CheckError("C10 fact extraction failed: " + p.stdout[-500:])
+    src = open(GEN).read()
+    unknown = sorted(set(re.findall(r'"(unknown|other)"', src)))
+    ctx.coverage["generated_facts"] = {"file": "lean/Ecal/Gen/C10.lean", "undetermined_values": len(re.findall(r'"(unknown|other)"', src))}
+    if unknown:
+        ctx.notes.append("fact extractor: some facts are undetermined (unknown/other) for this tree; the theorems over the facts only reject "
+                         "definite bad shapes, the correspondence decides")
 
 
 def post(ctx, cases, gores, model):
@@ -23,6 +45,25 @@ def post(ctx, cases, gores, model):
                 payload, tr = l.split("\t", 1)
                 traces[len(traces)] = (payload, tr)
     cov = ctx.coverage
+    # runs with free tie order: the observed run is validated by the model
+    obs = {}
+    for fn in sorted(glob.glob(os.path.join(ctx.work, "c10-validate-*.txt"))):
+        for l in open(fn, errors="replace"):
+            l = l.rstrip("\n")
+            if " ## " in l:
+                obs[len(obs)] = l
+    cov["validated_runs"] = 0
+    if obs:
+        vres = checklib.run_driver(ctx, ctx.prop, obs, args=["validate"], shards=8)
+        vbad = [k for k in sorted(obs) if vres.get(k, ("MISSING", {}))[0] != "ok"]
+        cov["validated_runs"] = len(obs) - len(vbad)
+        vbad.sort(key=lambda k: len(obs[k]))
+        for k in vbad[:3]:
+            payload, observed = obs[k].split(" ## ", 1)
+            rp = checklib.write_replay(ctx, "validate", {"payload": payload, "observed": observed},
+                                       "an admissible run: ascending priorities, nothing of smaller priority left out, stop exactly after the first failure (flag on), errors = failing started rules",
+                                       observed, f"./check {ctx.prop} --replay <this file>", theorem="Ecal.Props.C10.fail_first_prefix", tag="validate")
+            checklib.violation(ctx, rp, f"observed run rejected by the validator: {observed[:120]!r} for {payload[:80]!r}")
     multi = sum(1 for c in cases.values() if c.startswith("K ") and not c.startswith("K 1 "))
     cov["multi_worker_runs"] = multi
     cov["traces_validated_against_impl"] = 0
@@ -66,6 +107,7 @@ SPEC = dict(
     assumptions=["HighestPriority = -1 means 'none' only for priorities >= 0 (the documented domain); the Option-valued theorem has no such restriction",
                  "which non-empty root queue a worker serves is random in TaskQueue.Pop and not constrained by the property"],
     decode=decode,
+    extract=extract,
     post=post,
 )
 
@@ -92,6 +134,21 @@ def run(ctx):
 
 def replay(ctx, path):
     obj = json.load(open(path))
+    if obj.get("kind") == "validate":
+        lock = checklib._lean_lock()
+        try:
+            checklib.sh(["lake", "build", "driver"], cwd=checklib.LEAN)
+        finally:
+            lock.close()
+        res = checklib.run_driver(ctx, ctx.prop, {0: obj["case"]["payload"] + " ## " + obj["case"]["observed"]}, args=["validate"], shards=1)
+        verdict = res.get(0, ("MISSING", {}))[0]
+        print("case     :", obj["case"]["payload"])
+        print("observed :", obj["case"]["observed"])
+        print("model    :", verdict)
+        if verdict != "ok":
+            print(f"VIOLATION property={ctx.prop} replay={os.path.relpath(path, checklib.VERIF)}")
+            return 1
+        return 0
     if obj.get("kind") != "trace":
         return checklib.replay(ctx, SPEC, path)
     lock = checklib._lean_lock()
